@@ -35,6 +35,7 @@ Definition sto (st : store) (c : cid) : sres := match aget c st with Some a => a
 Definition st_partial_response : N := 14.   (* PartialResponse: the request is still in progress *)
 Definition st_full : N := 20.               (* RequestCompletedFull *)
 Definition st_partial : N := 21.            (* RequestCompletedPartial *)
+Definition st_paused : N := 15.             (* RequestPaused *)
 Definition st_failed_unknown : N := 32.     (* RequestFailedUnknown *)
 Definition st_not_found : N := 34.          (* RequestFailedContentNotFound *)
 
@@ -125,6 +126,10 @@ Definition rec_msg (r : req) (c : cid) (h send : bool) (i : N) : wmsg :=
 Definition fin_msg (r : req) (st : N) : wmsg :=
   {| wm_req := r; wm_md := []; wm_blocks := []; wm_idx := []; wm_status := st |}.
 
+(* prepareQuery's first transaction when the incoming-request hook paused the request: rb.PauseRequest() *)
+Definition pause_msg (r : req) : wmsg :=
+  {| wm_req := r; wm_md := []; wm_blocks := []; wm_idx := []; wm_status := st_paused |}.
+
 Definition req_of (o : lop) : req :=
   match o with LDedup r _ | LIgnore r _ | LSkip r _ | LRecord r _ _ | LFinish r => r end.
 
@@ -149,7 +154,12 @@ Definition own (r : req) (ops : list lop) : list lop := filter (fun o => N.eqb (
 (* ============================================================================================ *)
 (* Scheduled executions (what the driver plays): the driver decides which request performs its next
    link load; a request is started by prepareQuery. *)
-Inductive sact := SStart (q : req) | SStep (q : req).
+(* SStartPaused q: prepareQuery of a request that the incoming-request hook paused (its first transaction
+   carries RequestPaused; the extensions are registered all the same; the request is not queued);
+   SUnpause q: UnpauseResponse without extension data (the task is queued; no tracker operation, no message).
+   The model lets a paused request step before it is unpaused; the real responder does not, and the
+   driver never asks for it: the theorems quantify over the larger set of schedules. *)
+Inductive sact := SStart (q : req) | SStep (q : req) | SStartPaused (q : req) | SUnpause (q : req).
 
 (* per load event: the SendResponse call it causes, if any *)
 Fixpoint steps_of (fx : bool) (R : cid -> sres) (evs : list ev) : list (option (cid * bool)) :=
@@ -182,16 +192,20 @@ Fixpoint rst_put (x : rst) (l : list rst) : list rst :=
 Fixpoint lsteps (s : plt) (ops : list lop) : plt :=
   match ops with [] => s | o :: r => lsteps (fst (fst (lstep s o))) r end.
 
+Definition sim_start (s : plt) (sts : list rst) (r : req) (ms : list wmsg) : plt * list rst * list wmsg :=
+  match rst_find r sts with
+  | Some x =>
+      if rs_started x then (s, sts, [])
+      else (lsteps s (ext_ops (rs_q x)),
+            rst_put {| rs_q := rs_q x; rs_started := true; rs_steps := rs_steps x; rs_fs := rs_fs x |} sts, ms)
+  | None => (s, sts, [])
+  end.
+
 Definition sim_step (s : plt) (sts : list rst) (a : sact) : plt * list rst * list wmsg :=
   match a with
-  | SStart r =>
-      match rst_find r sts with
-      | Some x =>
-          if rs_started x then (s, sts, [])
-          else (lsteps s (ext_ops (rs_q x)),
-                rst_put {| rs_q := rs_q x; rs_started := true; rs_steps := rs_steps x; rs_fs := rs_fs x |} sts, [])
-      | None => (s, sts, [])
-      end
+  | SStart r => sim_start s sts r []
+  | SStartPaused r => sim_start s sts r [pause_msg r]
+  | SUnpause r => (s, sts, [])
   | SStep r =>
       match rst_find r sts with
       | Some x =>
@@ -229,7 +243,7 @@ Definition wmsg_eqb (a b : wmsg) : bool :=
   N.eqb (wm_status a) (wm_status b).
 Definition sact_eqb (a b : sact) : bool :=
   match a, b with
-  | SStart x, SStart y | SStep x, SStep y => N.eqb x y
+  | SStart x, SStart y | SStep x, SStep y | SStartPaused x, SStartPaused y | SUnpause x, SUnpause y => N.eqb x y
   | _, _ => false
   end.
 Definition tl_eqb (a b : sact * list wmsg) : bool :=
@@ -294,6 +308,16 @@ Fixpoint mon_tl (reqs : list rreq) (sp : spec) (tl : list (sact * list wmsg)) : 
       end
   | (SStep r, ms) :: rest =>
       match mon_msgs r sp ms with Some sp' => mon_tl reqs sp' rest | None => false end
+  | (SStartPaused r, ms) :: rest =>
+      match ms, rq_find r reqs with
+      | [m], Some q =>
+          if wmsg_eqb m (pause_msg r) then
+            match spec_ops sp (ext_ops q) with Some sp' => mon_tl reqs sp' rest | None => false end
+          else false
+      | _, _ => false
+      end
+  | (SUnpause r, ms) :: rest =>
+      match ms with [] => mon_tl reqs sp rest | _ => false end
   end.
 
 Fixpoint is_prefix (a b : list (cid * bool)) : bool :=
@@ -302,6 +326,10 @@ Fixpoint is_prefix (a b : list (cid * bool)) : bool :=
   | x :: a', y :: b' => pair_eqb x y && is_prefix a' b'
   | _, _ => false
   end.
+
+(* a message that closes a response (neither in progress nor paused) *)
+Definition is_final (m : wmsg) : bool :=
+  negb (N.eqb (wm_status m) st_partial_response) && negb (N.eqb (wm_status m) st_paused).
 
 Definition msgs_of (r : req) (tl : list (sact * list wmsg)) : list wmsg :=
   filter (fun m => N.eqb (wm_req m) r) (concat (map snd tl)).
@@ -312,7 +340,7 @@ Definition mon_req (R : cid -> sres) (tl : list (sact * list wmsg)) (q : rreq) :
   let md := concat (map wm_md ms) in
   let '(evs, ok) := plain_run R (rq_plan q) in
   let want := md_of_events evs in
-  match filter (fun m => negb (N.eqb (wm_status m) st_partial_response)) ms with
+  match filter is_final ms with
   | [] => is_prefix md want                     (* the schedule stopped before the request ended *)
   | [f] =>
       list_eqb pair_eqb md want &&
